@@ -33,6 +33,9 @@ def cases(tier, seed):
         for ci, cell in enumerate(alph.conforming_cells(g.crystal_system, g.cell_choice, tier)):
             for mod in ("tools", "laue"):
                 cs.append({"mod": mod, "no": no, "cc": cc, "cell": cell, "tier": tier, "far": mod == "tools" or ci == 0, "forms": ci == 0})
+    for no, cell in ((19, [1012.7, 1187.4, 1365.9, 90.0, 90.0, 90.0]), (2, [1012.7, 1187.4, 1365.9, 82.0, 97.0, 104.0])):
+        for mod in ("tools", "laue"):
+            cs.append({"mod": mod, "no": no, "cc": "standard", "cell": cell, "tier": tier, "far": False, "big": True})
     # cells typed with whole numbers, in every container / dtype (alph.kinds): one representative group per Laue class / setting
     from .c05 import SWEEP_GROUPS
 
@@ -68,7 +71,9 @@ def check_case(case):
     orc = G.Oracle(g, cell, max(s[1] for s in shells))
     Gi = O.recip_metric(cell)
     base = "%s:Sg%d/%s:cell=%s" % (case["mod"], no, cc, cell)
-    if case.get("cellkinds"):
+    if case.get("big"):
+        shells = [(0.0, 0.0045), (0.002, 0.0036)]
+    elif case.get("cellkinds"):
         shells = shells[:2]
     elif not case.get("far", True):
         shells = shells[:-1]  # the far-out thin shell is run for xfab.laue on the first cell of each setting only (C14 compares the modules)
